@@ -92,6 +92,15 @@ Theorem C17_selection_product_picks_rows : forall n S phi i c, nth i S 0 < n -> 
 Proof. exact selection_product_picks_rows. Qed.
 Print Assumptions C17_selection_product_picks_rows.
 
+(* PARTIAL (m <= 2): where the two branches of determinant() meet (p = m) they agree: det(B_S^T B_S) = (det B_S)^2.
+   The full statement - for every m - needs multiplicativity of the Laplace determinant and is not proved; the
+   code takes one branch per call and the correspondence judges that branch against the same branch of the model. *)
+Theorem C17_det_branches_agree_partial : forall a b c d : Qc,
+  (det (transpose_mul [[a]]) = det [[a]] * det [[a]] /\
+   det (transpose_mul [[a; b]; [c; d]]) = det [[a; b]; [c; d]] * det [[a; b]; [c; d]])%Qc.
+Proof. intros a b c d. split; [exact (det_branches_agree_1 a) | exact (det_branches_agree_2 a b c d)]. Qed.
+Print Assumptions C17_det_branches_agree_partial.
+
 Example C17_example :
   mse [[q 1 1; q 2 1]; [q 3 1; q 4 1]] [[q 1 1; q 0 1]; [q 3 1; q 2 1]] = q 2 1 /\
   optimality [[q 2 1; q 1 1]; [q 1 1; q 3 1]] = q 5 1 /\ optimality [[q 0 1; q 1 1]; [q 2 1; q 0 1]] = q 2 1 /\
